@@ -34,7 +34,7 @@ GOENV = dict(os.environ, GOFLAGS="-mod=mod", GOPROXY="off", GOSUMDB="off", GOTOO
              CGO_ENABLED=os.environ.get("CGO_ENABLED", "1"))
 
 
-MEM_LIMIT_KB = int(float(os.environ.get("VERIF_MEM_LIMIT_GB", "20")) * 1024 * 1024)
+MEM_LIMIT_KB = int(float(os.environ.get("VERIF_MEM_LIMIT_GB", "12")) * 1024 * 1024)
 
 
 def _group_rss_kb(pgid):
